@@ -132,3 +132,9 @@ def scale(c, rm):
     s = sum(p * (1 - cu) for p, (cb, cu) in zip(ax, cs))
     kappa = max([1] + [1 / q for q in ay if q > 0]) * (max(1, 1 / s) if s > 0 else 1)
     return min(kappa, 1 << 20)
+
+
+def gen_q(rng, tier):
+    """exact-rational cases: see qgen.py"""
+    from . import qgen
+    return qgen.conditionals(rng, tier, ops=('deduce', 'deduce_with'))
